@@ -30,8 +30,8 @@ m) a read that planned with the old live list may still be running when the hand
    then FAIL the read, not answer it: ColumnLoader::read_column_for_zone may not turn a load error into an empty column (rows with NULL cells / half the COUNT are returned as a normal answer).
 Not decided: content equality, behaviour after a crash inside a run, a read that re-loads a retired label between invalidation and reclaim.
 """
-FLOOR = 17
-REQUIRED = ["C05.a", "C05.b1", "C05.b2", "C05.b3", "C05.c", "C05.d", "C05.e", "C05.f", "C05.g", "C05.h", "C05.i", "C05.j", "C05.k", "C05.l", "C05.m", "C05.n", "C05.o"]
+FLOOR = 18
+REQUIRED = ["C05.a", "C05.b1", "C05.b2", "C05.b3", "C05.c", "C05.d", "C05.e", "C05.f", "C05.g", "C05.h", "C05.i", "C05.j", "C05.k", "C05.l", "C05.m", "C05.n", "C05.o", "C05.p"]
 
 
 def run(ctx):
@@ -474,6 +474,37 @@ def run(ctx):
                 bad.append(("plans-dropped-before-write:%s" % c.nname.split("::")[-1], "compact_uid removes merged zone plans from the vector (%s) before it is written" % c.nname.split("::")[-1], sp(m, c.bb)))
         return bad
     ctx.run("C05.o", "K9 LOOP + K7", "MultiUidCompactor::compact_uid", "all merged zones of a uid reach the zone writer in one call", o_)
+
+    def p_(inst):
+        """A zone in which no event carried an optional field has no block for that column: the cursor holds an empty vector for it.
+        ZoneCursor::next_row must not index the payload vectors with the row position unchecked - that panic kills the shard's
+        compactor task and the segment is never compacted."""
+        bad = []
+        b = F.fn("ZoneCursor::next_row")
+        fam = [b] + [F.fn_exact(k) for k in F.keys() if k.startswith(b.key.split("::{closure")[0] + "::{closure")]
+        n_get = 0
+        for f_ in fam:
+            pay = any(l[0] in ("param", "upvar") and len(l) > 2 and ".payload_fields" in l[2] for c in f_.calls if not c.cleanup for a_ in c.args for l in f_.origins(a_)) or f_ is not b
+            for i_ in sorted(f_.live_blocks()):
+                t = f_.blocks[i_]["t"]
+                if t["t"] == "assert" and "BoundsCheck" in str(t.get("msg", "")) and f_ is not b:
+                    # a closure of next_row: its parameter is an entry of payload_fields
+                    bad.append(("payload-vector-indexed-unchecked", "a closure of ZoneCursor::next_row indexes a payload column vector with the row position: a zone without that column (empty vector) panics the compactor", sp(f_, i_)))
+            for c in f_.calls:
+                if c.cleanup:
+                    continue
+                if re.search(r"ops::Index.*::index$|SliceIndex.*::index$", c.nname) and f_ is not b:
+                    bad.append(("payload-vector-indexed-unchecked", "a closure of ZoneCursor::next_row indexes a payload column vector with the row position: a zone without that column (empty vector) panics the compactor", sp(f_, c.bb)))
+                if f_ is not b and re.search(r"slice::.*::get$|Vec.*::get$|slice::get$", c.nname):
+                    n_get += 1
+        inst.sites.append("%d closure(s) of next_row, %d checked payload reads" % (len(fam) - 1, n_get))
+        # de-duplicate
+        seen, out = set(), []
+        for x in bad:
+            if x[0] not in seen:
+                seen.add(x[0]); out.append(x)
+        return out
+    ctx.run("C05.p", "K4 EFFECT", "ZoneCursor::next_row", "a zone without a column of an optional field does not panic the compactor", p_)
 
     def l_(inst):
         b = F.fn("ZoneCursorLoader::load_all")
